@@ -2,6 +2,7 @@
 import lifecycle
 import sendpaths
 import deadlock
+import anchors
 from rules import c03, c04, c05
 from rules.common import cfg_of, tracer_of, live_calls, fn_of, loc_of, all_calls
 from cfg import callee, is_panic_call
@@ -62,7 +63,7 @@ def classify_static(f, s):
         inner = ty.args[0] if ty.args else None
         if inner is not None and inner.k in ("uint", "int", "bool"):
             return "OnceLock<scalar>"
-        if inner is not None and inner.is_adt("std::sync::Mutex") and inner.args and inner.args[0].is_adt("std::collections::HashMap"):
+        if inner is not None and inner.is_adt("std::sync::Mutex") and inner.args and anchors.is_wait_map(f, inner.args[0]):
             return "wait-for graph (OnceLock<Mutex<HashMap>>)"
         return None
     if ty.is_adt("tokio::task::LocalKey") or ty.is_adt("std::thread::LocalKey") or s.get("thread_local"):
@@ -121,6 +122,6 @@ def lock_discipline(run, f):
     for bd in {x.name: x for x in acq}.values():
         if bd.name == b.name:
             continue
-        gl = [i for i, l in enumerate(bd.locals) if deadlock.is_graph_guard_ty(f.ty(l["ty"])) and f.ty(l["ty"]).is_adt(deadlock.GRAPH_GUARD)]
+        gl = [i for i, l in enumerate(bd.locals) if deadlock.is_graph_guard_ty(f.ty(l["ty"]), f) and f.ty(l["ty"]).is_adt(deadlock.GRAPH_GUARD)]
         ps = deadlock.panic_sites_in(f, bd, None, depth=2) if gl else []
         run.require(not ps, "O12.5", "no-panic-under-graph-lock:%s" % (bd.root or bd.defn), "panic possible under the graph lock in %s: %s" % (bd.name, ps[:2]), "panic-free")
